@@ -462,13 +462,28 @@ func TestC04(t *testing.T) {
 	t.Run("big-frames-under-settings", func(t *testing.T) {
 		bigFrameEnvCases(t, "C04", "c04", lenFrames, oracleC04)
 	})
-	t.Run("histories", func(t *testing.T) {
-		CheckProp(t, "C04", "c04", "histories", func(rt *rapid.T) *CaseHist {
-			c, st := genHistory(rt, lenFrames, false, true)
-			histRecord(c, st, "C04")
-			return c
-		}, oracleC04)
-	})
+	RunProps(t, rpC04())
+}
+
+func rpC04() []RProp {
+	return []RProp{MkProp("C04", "c04", "histories", func(rt *rapid.T) *CaseHist {
+		c, st := genHistory(rt, lenFrames, false, true)
+		histRecord(c, st, "C04")
+		return c
+	}, oracleC04)}
+}
+
+func rpC05() []RProp {
+	return []RProp{MkProp("C05", "c05", "histories", func(rt *rapid.T) *CaseHist {
+		c, st := genHistory(rt, ckFrames, false, false)
+		histRecord(c, st, "C05")
+		return c
+	}, oracleC05)}
+}
+
+func init() {
+	RapidProps["C04"] = rpC04
+	RapidProps["C05"] = rpC05
 }
 
 func TestC05(t *testing.T) {
@@ -482,13 +497,7 @@ func TestC05(t *testing.T) {
 		bigFrameEnvCases(t, "C05", "c05", ckFrames, oracleC05)
 		Col.MarkExhaustive("every list/text-carrying body type of the checksummed frames at ~70 KB, ~300 KB, ~1.1 MB under GOMAXPROCS 1 and 2, debug log level, reader-style services")
 	})
-	t.Run("histories", func(t *testing.T) {
-		CheckProp(t, "C05", "c05", "histories", func(rt *rapid.T) *CaseHist {
-			c, st := genHistory(rt, ckFrames, false, false)
-			histRecord(c, st, "C05")
-			return c
-		}, oracleC05)
-	})
+	RunProps(t, rpC05())
 }
 
 // ---- frames whose checksum takes a special value (0, all ones, the caller's stale value) -----------------
